@@ -283,8 +283,8 @@ def gumbel_sigmoid_old(logits, tau=1.0, hard=False, threshold=0.5):
 
     """
     # Temperature must be positive.
-    if tau <= 0:
-        raise ValueError("Temperature must be positive")
+    if not 0 < tau < math.inf:
+        raise ValueError("Temperature must be positive and finite")
 
     # Sample Gumbel noise. The difference of two Gumbels is equivalent to a Logistic distribution.
     gumbel_noise = Gumbel(0, 1).sample(logits.shape).to(logits.device) - \
@@ -306,8 +306,8 @@ def gumbel_sigmoid(logits, tau=1.0, hard=False, threshold=0.5):
     """
     Fast Gumbel-Sigmoid implementation using logistic noise trick.
     """
-    if not tau > 0:
-        raise ValueError("Temperature must be positive")
+    if not 0 < tau < math.inf:
+        raise ValueError("Temperature must be positive and finite")
 
     # Logistic(0,1) noise from uniform: log(U) - log(1-U)
     U = torch.rand_like(logits)
@@ -330,8 +330,8 @@ def gumbel_sigmoid(logits, tau=1.0, hard=False, threshold=0.5):
 
 def _check_temperature(tau):
     # tau = 0 gives NaN, tau < 0 prefers the least likely gate, NaN propagates: none of them is a temperature
-    if not tau > 0:
-        raise ValueError("Temperature must be positive")
+    if not 0 < tau < math.inf:
+        raise ValueError("Temperature must be positive and finite")
 
 def soft_raw(logits, tau=1.0):
     _check_temperature(tau)
